@@ -156,7 +156,16 @@ def _shard(arg):
     return part
 
 
+def prime():
+    """Load every module the shards use before forking / drawing (Hypothesis derives constants from the local modules
+    in sys.modules, so the module set must be the same in every worker)."""
+    tree.activate_view()
+    for text in ("x = f\"{y:'>10}\" + 'abc' # c\n", "a = r'b' + rf'{c!r:>{w}}'\n", "x = 'unterminated"):
+        evaluate(text, None)
+
+
 def run(ctx):
+    prime()
     n = 2000 if ctx.quick else 60000
     modes = ["core"] * 9 + ["edge"] * 4 + ["raw"] * 3
     ctx.pmap(_shard, [(ctx.seed, i, n if m != "raw" else 2 * n, m) for i, m in enumerate(modes)])
@@ -186,7 +195,7 @@ def run(ctx):
 
 
 def replay(ctx, case):
-    tree.activate_view()
+    prime()
     bucket, msg, info, tokenizable = evaluate(case["text"], case.get("prefix"))
     if bucket is None:
         return False, "round trip and completeness hold"
